@@ -75,6 +75,8 @@ HDR_GHOST = '''
     pub closed spec fn files(&self) -> Seq<FileEntry<R, Offset>> { self.file_names@ }
     /// view of the standard_opcode_lengths array (element k is the operand count of standard opcode k + 1)
     pub closed spec fn sol(&self) -> RView { self.standard_opcode_lengths.rv() }
+    /// view of the encoded line number program
+    pub closed spec fn program_view(&self) -> RView { self.program_buf.rv() }
     /// everything but the file table (DW_LNE_define_file appends to it)
     pub closed spec fn same_but_files(&self, o: &Self) -> bool {
         self.encoding == o.encoding && self.offset == o.offset && self.unit_length == o.unit_length
@@ -251,7 +253,7 @@ INSTR_CLONE = """
 /// `#[derive(Clone)]` on `LineInstructions { input: R }` (Verus gives derived Clone impls of non-Copy types no spec):
 /// the clone holds a clone of the reader, hence the same view (same assumption as `reader_clone`)
 #[verifier::external_body]
-pub fn instructions_clone<R: Reader<Offset = usize>>(x: &LineInstructions<R>) -> (res: LineInstructions<R>)
+pub fn instructions_clone<R: Reader>(x: &LineInstructions<R>) -> (res: LineInstructions<R>)
     ensures res.iv() == x.iv()
 { x.clone() }
 """
@@ -278,8 +280,8 @@ def populate(ctx, sk):
     sk.module('read::unit', '''use crate::common::*;
 use crate::constants;
 use crate::read::{Expression, Reader, ReaderOffset, UnitOffset};''')
-    sk.add('read::unit', un.item(r'^pub enum AttributeValue<R, Offset').clean(rejrec=['R', 'Offset']))
-    avi = un.item(r'^impl<R, Offset> AttributeValue<R, Offset>', label='AttributeValue').keep_only(['udata_value']).clean()
+    sk.add('read::unit', un.item(r'^pub enum AttributeValue<R, Offset').clean(offset=False, rejrec=['R', 'Offset']))
+    avi = un.item(r'^impl<R, Offset> AttributeValue<R, Offset>', label='AttributeValue').keep_only(['udata_value']).clean(offset=False)
     avi.own(['C01', 'C04'])
     avi.splice('udata_value', ret='res', ensures=[
         'res == (match *self { AttributeValue::Data1(d) => Some(d as u64), AttributeValue::Data2(d) => Some(d as u64), '
@@ -297,18 +299,18 @@ use crate::vspec_line::*;''')
     M = 'read::line'
 
     # ---- types
-    sk.add(M, ln.item(r'^pub struct FileEntryFormat').clean())
-    sk.add(M, ln.item(r'^pub struct FileEntry<R, Offset').clean(rejrec=['R', 'Offset']))
-    sk.add(M, ln.item(r'^pub struct LineProgramHeader<R, Offset').clean(rejrec=['R', 'Offset']))
-    sk.add(M, ln.item(r'^pub enum LineInstruction<R, Offset').clean(rejrec=['R', 'Offset']))
-    sk.add(M, ln.item(r'^pub struct LineRow \{').clean())
-    sk.add(M, ln.item(r'^pub struct IncompleteLineProgram<R, Offset').clean(rejrec=['R', 'Offset']))
-    sk.add(M, ln.item(r'^pub struct CompleteLineProgram<R, Offset').clean(rejrec=['R', 'Offset']))
+    sk.add(M, ln.item(r'^pub struct FileEntryFormat').clean(offset=False))
+    sk.add(M, ln.item(r'^pub struct FileEntry<R, Offset').clean(offset=False, rejrec=['R', 'Offset']))
+    sk.add(M, ln.item(r'^pub struct LineProgramHeader<R, Offset').clean(offset=False, rejrec=['R', 'Offset']))
+    sk.add(M, ln.item(r'^pub enum LineInstruction<R, Offset').clean(offset=False, rejrec=['R', 'Offset']))
+    sk.add(M, ln.item(r'^pub struct LineRow \{').clean(offset=False))
+    sk.add(M, ln.item(r'^pub struct IncompleteLineProgram<R, Offset').clean(offset=False, rejrec=['R', 'Offset']))
+    sk.add(M, ln.item(r'^pub struct CompleteLineProgram<R, Offset').clean(offset=False, rejrec=['R', 'Offset']))
     sk.add(M, OP_VIEW, label='op_view')
     sk.add(M, HELPERS, label='helpers', owners=['C01', 'C04'])
 
     # ---- trait LineProgram + impls
-    tr = ln.item(r'^pub trait LineProgram<R, Offset', label='LineProgram').clean()
+    tr = ln.item(r'^pub trait LineProgram<R, Offset', label='LineProgram').clean(offset=False)
     tr.insert_members('    /// ghost: the header this program holds\n    spec fn hdr(&self) -> LineProgramHeader<R, Offset>;')
     tr.splice('header', ret='res', ensures=['*res == self.hdr()'])
     tr.splice('add_file', ensures=[
@@ -316,14 +318,14 @@ use crate::vspec_line::*;''')
         '[C04:define-file] final(self).hdr().files() == old(self).hdr().files().push(file) || final(self).hdr().files() == old(self).hdr().files()'])
     tr.own(['C01', 'C04'])
     sk.add(M, tr)
-    ti = ln.item(r'^impl<R, Offset> LineProgram<R, Offset> for IncompleteLineProgram<R, Offset>', label='LineProgram for IncompleteLineProgram').clean()
+    ti = ln.item(r'^impl<R, Offset> LineProgram<R, Offset> for IncompleteLineProgram<R, Offset>', label='LineProgram for IncompleteLineProgram').clean(offset=False)
     ti.insert_members('    closed spec fn hdr(&self) -> LineProgramHeader<R, Offset> { self.header }')
     ti.own(['C01', 'C04'])
     sk.add(M, ti)
     tc = ln.item(r"^impl<'program, R, Offset> LineProgram<R, Offset> for &'program CompleteLineProgram<R, Offset>", label='LineProgram for &CompleteLineProgram')
     # same as R-CLOSURE: a wildcard *fn parameter* gets a name (Verus: "function parameters must be a plain identifier")
     tc.custom('R-CLOSURE', 'fn add_file(&mut self, _: FileEntry<R, Offset>)', 'fn add_file(&mut self, _verif_unused: FileEntry<R, Offset>)')
-    tc.clean()
+    tc.clean(offset=False)
     tc.insert_members('    closed spec fn hdr(&self) -> LineProgramHeader<R, Offset> { self.header }')
     tc.own(['C01', 'C04'])
     sk.add(M, tc)
@@ -331,7 +333,7 @@ use crate::vspec_line::*;''')
     # ---- header accessors used by the machine
     hi = ln.item(r'^impl<R, Offset> LineProgramHeader<R, Offset>', label='LineProgramHeader')
     hi.keep_only(['version', 'address_size', 'opcode_base', 'standard_opcode_lengths'])
-    hi.clean()
+    hi.clean(offset=False)
     hi.insert_members(HDR_GHOST)
     hi.splice('version', ret='res', ensures=['res as int == self.lh().version'])
     hi.splice('address_size', ret='res', ensures=['res as int == self.lh().address_size'])
@@ -347,7 +349,7 @@ use crate::vspec_line::*;''')
     # R-STATICDEFAULT: Verus 0.2026.09.13 panics (vir/sst_to_air.rs "no entry found for key") on a static call of a trait
     # *default* method at a concrete type (`u64::min_tombstone`). The call goes through a verified generic forwarder.
     row.custom('R-STATICDEFAULT', 'u64::min_tombstone(', 'verif_min_tombstone::<u64>(')
-    row.clean()
+    row.clean(offset=False)
     row.insert_members(ROW_GHOST)
     row.own(['C01', 'C04'])
     row.splice('new', ret='res', ensures=[f'[C04:initial] res.regs() == line_initial({H})'])
@@ -408,7 +410,7 @@ use crate::vspec_line::*;''')
     sk.add(M, row)
 
     # ---- FileEntry::parse (DW_LNE_define_file / version <= 4 file_names entries: path already read; three ULEB128s)
-    fe = ln.item(r'^impl<R, Offset> FileEntry<R, Offset>', label='FileEntry').keep_only(['parse']).clean()
+    fe = ln.item(r'^impl<R, Offset> FileEntry<R, Offset>', label='FileEntry').keep_only(['parse']).clean(offset=False)
     fe.own(['C01', 'C04'])
     fe.splice('parse', ret='res', ensures=[
         '[C04:file-entry-v4] res matches Ok(e) ==> ({ let v = old(input).rv(); let l0 = v.leb_len(0) as int; let l1 = v.leb_len(l0) as int; let l2 = v.leb_len(l0 + l1) as int; '
@@ -423,7 +425,7 @@ use crate::vspec_line::*;''')
     li.custom('R-CLONE', 'let mut args = input.clone();', 'let mut args = reader_clone(input);')
     # same as R-CLOSURE: the wildcard loop variable gets a name so that the loop invariant can count iterations
     li.custom('R-CLOSURE', 'for _ in 0..num_args {', 'for _verif_i in 0..num_args {')
-    li.clean()
+    li.clean(offset=False)
     li.own(['C01', 'C04'])
     li.splice('parse', ret='res', requires=[VALID], canary=True, ensures=parse_clauses(), loops={
         0: 'invariant adv(args.rv(), input.rv(), lebs_len(args.rv(), 0, _verif_i as nat)), args.rv() == sub_view(old(input).rv(), 1, (old(input).rv().len - 1) as nat), old(input).rv().len >= 1, 12 < old(input).rv().at(0) < header.lh().opcode_base,'},
@@ -437,7 +439,7 @@ use crate::vspec_line::*;''')
     sk.add(M, decoded_spec(), label='decoded')
     it1 = ln.item(r'^impl<R: Reader> LineInstructions<R> \{\s*fn remove_trailing', label='LineInstructions(remove_trailing)')
     it1.custom('R-CLONE', 'self.input.clone()', 'reader_clone(&self.input)')
-    it1.clean()
+    it1.clean(offset=False)
     it1.own(['C01', 'C04'])
     it1.insert_members('    /// ghost: the instructions still to be decoded\n    pub closed spec fn iv(&self) -> RView { self.input.rv() }')
     it1.splice('remove_trailing', ret='res',
@@ -445,7 +447,7 @@ use crate::vspec_line::*;''')
                ensures=['[C04:sequence-slice][C10:view] res matches Ok(s) ==> window(self.iv(), s.iv(), 0, (other.iv().start - self.iv().start) as nat)',
                         '[C04:sequence-slice] other.iv().start <= self.iv().start + self.iv().len ==> res is Ok'], canary=True)
     sk.add(M, it1)
-    it2 = ln.item(r'^impl<R: Reader> LineInstructions<R> \{\s*#\[inline\(always\)\]', label='LineInstructions').clean()
+    it2 = ln.item(r'^impl<R: Reader> LineInstructions<R> \{\s*#\[inline\(always\)\]', label='LineInstructions').clean(offset=False)
     it2.own(['C01', 'C04'])
     it2.splice('next_instruction', ret='res', requires=[VALID], canary=True, ensures=[
         '[C01:iter-end] old(self).iv().len == 0 ==> (res matches Ok(None)) && final(self).iv() == old(self).iv()',
@@ -458,6 +460,69 @@ use crate::vspec_line::*;''')
         '[C04:next-instruction] res matches Ok(Some(i)) ==> decoded(header, old(self).iv(), i, final(self).iv())',
     ])
     sk.add(M, it2)
+    sk.add(M, 'impl<R: Reader> LineSequence<R> {\n    /// ghost: the instructions of this sequence\n    pub closed spec fn iv(&self) -> RView { self.instructions.iv() }\n}\n', label='LineSequence(ghost)')
+
+    # ---- LineRows: the row iterator
+    sk.add(M, ln.item(r'^pub struct LineRows<R, Program, Offset').clean(offset=False, rejrec=['R', 'Program', 'Offset']))
+    sk.add(M, ln.item(r'^type OneShotLineRows<R, Offset').clean(offset=False))
+    sk.add(M, ln.item(r'^type ResumedLineRows<').clean(offset=False))
+    ip = ln.item(r'^impl<R, Offset> IncompleteLineProgram<R, Offset>', label='IncompleteLineProgram').keep_only(['header', 'rows']).clean(offset=False)
+    ip.own(['C01', 'C04'])
+    ip.splice('header', ret='res', ensures=['*res == self.hdr()'])
+    ip.splice('rows', ret='res', requires=['[C04:valid-header] valid_line_hdr(self.hdr().lh())'], ensures=[
+        '[C04:rows-start] res.wf() && res.prog().hdr() == self.hdr() && res.row_regs() == line_initial(self.hdr().lh()) && res.instrs() == self.hdr().program_view()'])
+    sk.add(M, ip)
+    cp = ln.item(r'^impl<R, Offset> CompleteLineProgram<R, Offset>', label='CompleteLineProgram').clean(offset=False)
+    cp.own(['C01', 'C04', 'C20'])
+    cp.splice('header', ret='res', ensures=['*res == self.hdr()'])
+    cp.splice('resume_from', ret='res', requires=['[C04:valid-header] valid_line_hdr(self.hdr().lh())'], ensures=[
+        '[C04:resume][C20:resume-fresh] res.wf() && res.prog().hdr() == self.hdr() && res.row_regs() == line_initial(self.hdr().lh()) && res.instrs() == sequence.iv()'])
+    sk.add(M, cp)
+    lr = ln.item(r'^impl<R, Program, Offset> LineRows<R, Program, Offset>', label='LineRows')
+    lr.custom('R-CLONE', 'program.header().program_buf.clone()', 'reader_clone(&program.header().program_buf)')
+    lr.custom('R-CLONE', 'sequence.instructions.clone()', 'instructions_clone(&sequence.instructions)')
+    lr.clean(offset=False)
+    lr.own(['C01', 'C04'])
+    lr.insert_members("""
+    pub closed spec fn prog(&self) -> Program { self.program }
+    /// the registers of the row under construction / last row handed out
+    pub closed spec fn row_regs(&self) -> LineRegs { self.row.regs() }
+    /// the instructions still to be executed
+    pub closed spec fn instrs(&self) -> RView { self.instructions.iv() }
+    /// invariant of the iterator: valid header, register invariant, and the address never exceeds the address size
+    pub closed spec fn wf(&self) -> bool {
+        valid_line_hdr(self.program.hdr().lh()) && line_regs_wf(self.program.hdr().lh(), self.row.regs())
+        && self.row.regs().address <= addr_max(self.program.hdr().lh())
+    }
+""")
+    START = 'res.wf() && res.prog().hdr() == program.hdr() && res.row_regs() == line_initial(program.hdr().lh())'
+    lr.splice('new', ret='res', requires=['[C04:valid-header] valid_line_hdr(program.hdr().lh())'], ensures=[
+        f'[C04:rows-start] {START} && res.instrs() == program.hdr().program_view()'])
+    # C20 "resumed iterators ... give exactly the results that fresh state gives": a resumed iterator starts from the
+    # initial registers on exactly the sequence's instructions; nothing of the run that produced the sequence is kept
+    lr.splice('resume', ret='res', requires=['[C04:valid-header] valid_line_hdr(program.hdr().lh())'], ensures=[
+        f'[C04:resume][C20:resume-fresh] {START} && res.instrs() == sequence.iv()'])
+    lr.splice('header', ret='res', ensures=['*res == self.prog().hdr()'])
+    HL = 'old(self).prog().hdr().lh()'
+    lr.splice('next_row', ret='res', requires=['[C04:rows-wf] old(self).wf()'], canary=True, ensures=[
+        '[C04:rows-wf] final(self).wf()',
+        f'final(self).prog().hdr().same_but_files(&old(self).prog().hdr())',
+        # "for any input whatsoever row addresses ... never exceed the address size"
+        f'[C04:monotone] res matches Ok(Some(p)) ==> p.1.regs().address <= addr_max({HL}) && p.1.regs() == final(self).row_regs() && !p.1.regs().tombstone',
+        # "... never decrease within a sequence": the previous row did not end a sequence => the address did not go down
+        f'[C04:monotone-rows] res matches Ok(Some(p)) ==> !old(self).row_regs().end_sequence ==> p.1.regs().address >= old(self).row_regs().address',
+        '[C04:row-header] res matches Ok(Some(p)) ==> *p.0 == final(self).prog().hdr()',
+        # iterator protocol (DESIGN 5.2)
+        '[C01:iter-end] old(self).instrs().len == 0 ==> res matches Ok(None)',
+        '[C01:iter-err-empties] res is Err ==> final(self).instrs().len == 0 || res matches Err(Error::AddressOverflow)',
+        '[C01:iter-progress] res matches Ok(Some(_)) ==> final(self).instrs().len < old(self).instrs().len',
+        '[C01:iter-none-only-at-end] res matches Ok(None) ==> final(self).instrs().len == 0',
+        '[C01:frame] final(self).instrs().root == old(self).instrs().root && final(self).instrs().len <= old(self).instrs().len',
+    ], loops={0: """invariant
+            self.wf(), self.program.hdr().same_but_files(&old(self).program.hdr()),
+            self.instructions.iv().root == old(self).instructions.iv().root, self.instructions.iv().len <= old(self).instructions.iv().len,
+        decreases self.instructions.iv().len"""})
+    sk.add(M, lr)
     return sk
 
 
